@@ -403,12 +403,18 @@ def formations_in_step(ctx):
     o, fd = ctx.require_fn("R3.update-covers-nodes", "T1", UTF, "update_train_formation processes every moved non-depot node")
     if fd is not None:
         # the depot test may sit in the loop, in a closure handed to an adaptor, or in a private helper
-        asked = call(ND("is_depot")) in fd.decision_slice()["atoms"]
+        asked = False
         for f in hosts(ctx, UTF):
-            asked = asked or any(c.callee == ND("is_depot") for c in f.body.calls()) \
-                or any(i.kind == "assign" and i.rv_kind() == "discr" and "discr:model::network::nodes::Node" in f.slice(seed_blocks=[i.bb], control=False)["atoms"]
-                       for i in f.body.instrs())
-        ctx.decide(o, asked, "the depot test is part of the update", "dec slice of update_train_formation lacks: %s" % ND("is_depot"))
+            def _on_node(i):
+                tk = f.body.local_tk(i.discr_place().local)
+                while tk.get("k") == "ref":
+                    tk = tk.get("t", {})
+                return tk.get("k") == "adt" and tk.get("p") == "model::network::nodes::Node"
+            asked = asked or any(c.callee in (ND("is_depot"), ND("is_start_depot"), ND("is_end_depot")) for c in f.body.calls()) \
+                or any(i.kind == "assign" and i.rv_kind() == "discr" and _on_node(i) for i in f.body.instrs())
+        ctx.decide(o, asked, "the depot test is part of the update",
+                   "update_train_formation never asks whether a node is a depot (%s): whichever other test decides which nodes are skipped, "
+                   "maintenance slots or service trips are left with a stale formation" % ND("is_depot"))
     o, fd = ctx.require_fn("R3.update-writes-formation-per-node", "T1", UTF, "each processed node's formation is replaced by the result of the vehicle replacement")
     if fd is not None:
         ok = False
